@@ -220,9 +220,30 @@ def decide(smt_text, workdir, name, timeout_s=20, order=("z3new", "cvc5", "z3old
 
 
 _STR_KINDS = None
+_quant_cache = {}
 
 
-def abstract_strings(formulas):
+def _has_quantifier(t):
+    k = t.get_id()
+    if k in _quant_cache:
+        return _quant_cache[k]
+    found = False
+    stack, seen = [t], set()
+    while stack:
+        x = stack.pop()
+        if x.get_id() in seen:
+            continue
+        seen.add(x.get_id())
+        if z3.is_quantifier(x):
+            found = True
+            break
+        if z3.is_app(x):
+            stack.extend(x.children())
+    _quant_cache[k] = found
+    return found
+
+
+def abstract_strings(formulas, abstract_quantifiers=False):
     """Replace every maximal sub-term whose top symbol is a string-theory operation over String arguments by a
     fresh constant (consistently).  Sound for refutation-free use: unsat of the result implies unsat of the input."""
     global _STR_KINDS
@@ -252,6 +273,12 @@ def abstract_strings(formulas):
             return
         seen.add(i)
         if z3.is_quantifier(x):
+            if abstract_quantifiers:
+                if i not in table:
+                    c = z3.Const("quantabs!%d" % len(table), z3.BoolSort())
+                    table[i] = c
+                    subst.append((x, c))
+                return
             walk(x.body())
             return
         if is_string_op(x):
@@ -344,14 +371,15 @@ def discharge_all(ex, obligations, workdir, timeout_s=20, jobs=16, both=False, g
         if r is not None and o.expect == "unsat" and r.status == "unknown":
             try:
                 asm = relevant_assumptions(ex.assumptions[:o.nassume], [o.pc, o.goal], cache)
-                fs = abstract_strings(asm + [o.pc, z3.Not(o.goal)])
+                asm = [a_ for a_ in asm if not _has_quantifier(a_)]       # and without quantified hypotheses
+                fs = abstract_strings(asm + [o.pc, z3.Not(o.goal)], abstract_quantifiers=True)
                 retry.append((o, to_smt2(fs, None)))
             except Exception:
                 continue
     if retry:
         def work1(item):
             o, txt = item
-            return o, decide(txt, workdir, o.id + "#nostr", timeout_s=timeout_s, order=("z3old",), keep=False)
+            return o, decide(txt, workdir, o.id + "#nostr", timeout_s=timeout_s, order=("z3new", "z3old"), keep=False)
         with ThreadPoolExecutor(max_workers=jobs) as pool:
             for o, r2 in pool.map(work1, retry):
                 old = results[o.id]
